@@ -7,7 +7,8 @@
     pat.fmt <type> <patternHex> <culture> <value fields…>  → textHex | !dom | !<err>
     pat.parse <type> <patternHex> <culture> <textHex>       → ok fields… | fail | !dom | !<err>
     pat.delim <type> <patternHex> <culture> → 1 | 0 (the theorem's `Delimited` criterion on the compiled steps) | - (not stepped)
-    pat.wf <type> <patternHex> <culture> → 1 | 0 (`dtStepWF` on all steps and `fieldsSound`) | - (not stepped)
+    pat.wf <type> <patternHex> <culture> → 1 | 0 (`dtStepWF` on all steps and `fieldsSound`) | 2 | 0 (`segWF` of a pattern with
+       embedded parts) | - (neither; or the culture fails `monthHeadsEmpty`)
     cu.names <culture> → <9 bits: monthNamesOK 3g 3p 4g 4p, dayNamesOK 3 4, amPmOK 1 2, eraOK> <hex of the U+001F-joined
        danger character lists: months 3g 3p 4g 4p, days 3 4, am/pm, era>   (`NamesOK` conditions of the text-step theorems)
     cu.check <culture> → <offsetTextsCustom> <dtTextsNoL> <monthHeadsEmpty>   (culture hypotheses of the theorems)
@@ -216,6 +217,7 @@ def handlePat (toks : List String) : Option String :=
       some (match compileTok tok ty cu p with
         | .error e => "!" ++ e.name
         | .ok (.stepped c) => showBool (c.steps.all dtStepWF && fieldsSound c.used c.steps)
+        | .ok (.segmented cu' used segs) => if segWF cu' used segs then "2" else (if cu'.monthHeadsEmpty then "0" else "-")
         | .ok _ => "-")
   | ["cu.check", cu] => do
       let cu ← decodeCulture cu
